@@ -1,5 +1,5 @@
 """Which verification tasks serve which property, and the fixed lists reported in every evidence file."""
-TASK_MODULES = ["pyvc.tasks_layer1", "pyvc.tasks_c07", "pyvc.tasks_c16", "pyvc.tasks_c20", "pyvc.tasks_c13", "pyvc.tasks_c04"]
+TASK_MODULES = ["pyvc.tasks_layer1", "pyvc.tasks_c07", "pyvc.tasks_c16", "pyvc.tasks_c20", "pyvc.tasks_c13", "pyvc.tasks_c04", "pyvc.tasks_c01"]
 
 L1_ALL = ["layer1/Circuit." + m for m in ("type", "is_output", "fanin", "fanout", "nodes", "edges", "connect", "disconnect", "remove",
                                           "set_output", "set_type", "outputs", "inputs", "io", "startpoints", "endpoints", "uid", "add[default]", "add[uid]")]
@@ -10,6 +10,7 @@ PROPERTY_TASKS = {
             "C07/connect", "C07/disconnect", "C07/remove", "C07/set_output", "C07/add[default]", "C07/add[uid]"],
     "C12": ["layer1/Circuit.fanin", "layer1/Circuit.fanout", "layer1/Circuit.startpoints", "layer1/Circuit.endpoints",
             "layer1/Circuit.inputs", "layer1/Circuit.outputs"],
+    "C01": ["C01/cnf", "layer1/Circuit.type", "layer1/Circuit.fanin", "layer1/Circuit.nodes"],
     "C04": ["C04/miter[self,default]", "C04/miter[pair,default]", "C04/miter[pair,explicit]", "C04/miter-encoding-lemma",
             "layer1/Circuit.add[default]", "layer1/Circuit.connect", "layer1/Circuit.startpoints", "layer1/Circuit.endpoints"],
     "C13": ["C13/clog2"],
@@ -39,4 +40,4 @@ EXTRACTION_DROPS = [
     "import statements (imported names are bound to assumed contracts)",
 ]
 
-TASK_FILES = {"layer1": "circuitgraph/circuit.py", "C07": "circuitgraph/circuit.py", "C16": "circuitgraph/circuit.py", "C20": "circuitgraph/utils.py", "C04": "circuitgraph/tx.py", "C13": "circuitgraph/utils.py"}
+TASK_FILES = {"layer1": "circuitgraph/circuit.py", "C07": "circuitgraph/circuit.py", "C16": "circuitgraph/circuit.py", "C20": "circuitgraph/utils.py", "C04": "circuitgraph/tx.py", "C13": "circuitgraph/utils.py", "C01": "circuitgraph/sat.py"}
